@@ -149,11 +149,12 @@ class MultiOperator(Operator):
 
         if not name:  # default name
             name = " | ".join([op.name for op in operators])
-        if duration is None:  # use sum of durations
-            duration = self.duration
+        total = self.duration  # sum of the members' durations (may be negative: Offset)
 
-        # init parent class
+        # init parent class (validates a duration given explicitly)
         super().__init__(name=name, duration=duration)
+        if duration is None:
+            self.duration = total
 
     def _apply(self, sm):
         """apply sequence of operators to state matrix"""
